@@ -331,6 +331,18 @@ func genRoundsPlan(r *Rand, eedPct, envPct int, hooks bool) *roundsPlan {
 		}
 	}
 	p.ReadTimeout0 = r.Pct(8)
+	if r.Pct(8) {
+		// a slow server (it stops reading for a while: the client's request writes block and go on later)
+		plain := !p.SlowHook
+		for _, rd := range p.Rounds {
+			if rd.Poll || rd.Slow || rd.PauseAt > 0 || rd.Truncated {
+				plain = false
+			}
+		}
+		if plain {
+			p.Knobs.GenSlow(r, 60, 50*time.Millisecond)
+		}
+	}
 	return p
 }
 
